@@ -67,7 +67,7 @@ STATE_SUB = {'await-open': 1, 'openconfirm': 2, 'established': 3}
 
 
 def counts(tier: str):
-    return (250, 75.0) if tier == 'quick' else (20000, 900.0)
+    return (1000, 75.0) if tier == 'quick' else (20000, 900.0)
 
 
 def cells():
